@@ -674,6 +674,42 @@ pub fn sites(tier: Tier) -> Vec<Site> {
         ));
     }
 
+    // 3d''. texts that decode to characters OUTSIDE the basic plane (four-byte GB18030 sequences under ^S: the only way the wire
+    // can carry them) in every text field, with every other byte of the frame taking all 256 values: a neighbouring
+    // length, count or mode byte that makes the reader cut, pad or index the decoded text meets surrogate pairs
+    {
+        let targets: Vec<(String, bool, Vec<u8>, usize, usize)> = text_targets.iter().filter(|t| !t.0.contains("oversize") && t.4 >= 8).cloned().collect();
+        let mut offs = vec![0u64];
+        for t in &targets { offs.push(offs.last().unwrap() + (t.2.len() as u64 - 1) * 256); }
+        let total = *offs.last().unwrap();
+        let targets = Arc::new(targets);
+        sites.push(Site::new(
+            "astral-text-with-any-neighbour-byte",
+            total,
+            "every text-bearing field of every kind (both modes) holding ^S and as many four-byte GB18030 sequences (U+10000, U+1F600) as fit behind two ASCII characters x every other byte position of the frame x all 256 values, followed by a sentinel TINY",
+            move |i, acc| {
+                let ti = match offs.binary_search(&i) { Ok(x) => x, Err(x) => x - 1 };
+                let (name, compressed, frame, start, len) = &targets[ti];
+                let r = i - offs[ti];
+                let pos = 1 + (r / 256) as usize;
+                let val = (r % 256) as u8;
+                if pos >= *start && pos < *start + *len { return; }
+                let mut fill = vec![0u8; *len];
+                let mut text = vec![b'a', b'^', b'S', b'b'];
+                let seqs: [[u8; 4]; 2] = [[0x90, 0x30, 0x81, 0x30], [0x94, 0x39, 0xfc, 0x36]];
+                let mut k = 0usize;
+                while text.len() + 4 < *len { text.extend_from_slice(&seqs[k % 2]); k += 1; }
+                fill[..text.len()].copy_from_slice(&text);
+                let mut buf = frame.clone();
+                buf[*start..*start + *len].copy_from_slice(&fill);
+                buf[pos] = val;
+                buf.extend_from_slice(if *compressed { &SENTINEL_C } else { &SENTINEL_U });
+                let replay = || json!({"site": "astral-text-with-any-neighbour-byte", "index": i, "field": name, "position": pos, "value": val, "input": hex(&buf[..buf.len().min(96)])});
+                judge_lazy(*compressed, &buf, i, &replay, acc, false);
+            },
+        ));
+    }
+
     // 3e. IS_MSO, the one packet whose parser relates two of its fields (TextStart and the message): every
     // message of length 4 and 8 over {a ^ E J 0xEC 0x83 0x9F NUL} x every TextStart 0..=length+1
     {
